@@ -8,8 +8,7 @@ EXTENDS XargsSem, TraceLib
 InDomain(in, obs) == SemDomain(in) /\ (Flag(in, "echo") => EchoDomain(in))
 Conforms(in, obs) ==
   /\ "panic" \notin DOMAIN obs
-  /\ IF Flag(in, "echo") THEN obs.argvs = <<>> /\ EchoOK(in, obs.stdout, obs.exit)
-                               /\ TraceLinesOK(in, obs.tlines, Cardinality({i \in DOMAIN obs.stdout : obs.stdout[i] = 10}))
+  /\ IF Flag(in, "echo") THEN obs.argvs = <<>> /\ EchoOK(in, obs.stdout, obs.exit, obs.tlines)
      ELSE SemOK(in, obs.argvs, obs.exit) /\ obs.stdout = <<>> /\ TraceLinesOK(in, obs.tlines, Len(obs.argvs))
 Describe(in) == [toks |-> Toks(in), outcomes |-> IF Toks(in).err THEN <<>> ELSE SetToSeq(B!RefOutcomes(BatchIn(in)))]
 INSTANCE TraceCheck
